@@ -36,4 +36,18 @@ DecO(j) ==
                       THEN {q \in Pix : q <= Len(j.seg) /\ j.seg[q] = n /\ FrameOf(q) = j.time[n]} ELSE {-1}]],
      ulen |-> j.ulen, rlen |-> j.rlen]
 
+\* lookups are lists in the code: duplicates are visible only before the set conversion
+NoDupLookups(j) == Cardinality({<<p[1], p[2]>> : p \in Rng(j.t2n)}) = Len(j.t2n)
+                   /\ Cardinality({<<p[1], p[2]>> : p \in Rng(j.l2n)}) = Len(j.l2n)
+
+\* C06: the recorded answers of the two track queries and the next ids, against graph scans
+QueriesOK(j, O) ==
+    /\ NoDupLookups(j)
+    /\ \A id \in 1..Len(j.q.nbr) : \A k \in 1..(T + 2) :
+          LET t == k - 2 IN
+          /\ j.q.nbr[id][k][1] = ScanPred(O, id, t)
+          /\ j.q.nbr[id][k][2] = ScanSucc(O, id, t)
+          /\ (j.q.has[id][k] = 1) <=> ScanHas(O, id, t)
+    /\ \A n \in Present(O) : O.tid[n] # j.q.next_tid
+    /\ LidOn(O) => \A n \in Present(O) : O.lid[n] # j.q.next_lid
 =============================================================================
